@@ -27,7 +27,7 @@ ASSUMPTIONS = ['floats as reals (rational constants recovered exactly from the f
                'rho and the degree sequence are enumerated in the Taylor line (series division needs a constant leading coefficient)']
 OPTS = {'quick': {'max_validate': 0, 'cfg_timeout': 250}, 'thorough': {'max_validate': 0, 'cfg_timeout': 1500}}
 VALIDATE = False
-MUST_EVALUATE = {'quick': ['group-agrees', 'conjugacy', 'prefmix-discrete-agrees']}
+MUST_EVALUATE = {'quick': ['group-agrees', 'conjugacy', 'prefmix-discrete-agrees', 'integrator-starts-at-tmin']}
 
 HIER = ['EBCM_from_graph', 'SIR_compact_pairwise_from_graph', 'SIR_super_compact_pairwise_from_graph', 'SIR_effective_degree_from_graph',
         'SIR_compact_effective_degree_from_graph']
@@ -60,6 +60,12 @@ def configs(tier):
                 out.append(dict(family='group', group='regular-pairwise-' + kind, members=mem, graph=g, rho=rho, order=min(m, 6) if graphs.ALL[g][0] > 4 else m,
                                 tags=['regular-pairwise', kind, g, rho]))
                 out.append(dict(family='group', group='regular-meanfield-' + kind, members=REG_MF[kind], graph=g, rho=rho, order=m, tags=['regular-meanfield', kind, g, rho]))
+                if g == 'C4' and rho == rhos[0]:
+                    # a start time other than 0 (the models are autonomous: same series in the elapsed time)
+                    out.append(dict(family='group', group='regular-pairwise-' + kind, members=mem, graph=g, rho=rho, order=min(m, 6), tmin=2,
+                                    tags=['regular-pairwise', kind, g, rho, 'tmin2']))
+                    out.append(dict(family='group', group='regular-meanfield-' + kind, members=REG_MF[kind], graph=g, rho=rho, order=min(m, 6), tmin=2,
+                                    tags=['regular-meanfield', kind, g, rho, 'tmin2']))
     for g in ['C4', 'K4', 'K33']:
         out.append(dict(family='group', group='prefmix-regular', members=['EBCM_from_graph', 'EBCM_pref_mix_from_graph'], graph=g, rho='1/5', order=m, tags=['prefmix', g]))
     for pk in ({1: '1/2', 3: '1/2'}, {1: '1/4', 2: '1/2', 4: '1/4'}):
@@ -70,9 +76,9 @@ def configs(tier):
     return out
 
 
-def run_model(an, EoN, name, G, tau, gamma, rho):
+def run_model(an, EoN, name, G, tau, gamma, rho, tmin=0):
     f = getattr(EoN, name)
-    kw = dict(tmin=0, tmax=1, tcount=2)
+    kw = dict(tmin=tmin, tmax=tmin + 1, tcount=2)
     if name in ('SIR_pair_based', 'SIS_pair_based', 'SIR_individual_based', 'SIS_individual_based'):
         kw['rho'] = rho
         r = f(G, tau, gamma, **kw)
@@ -97,12 +103,20 @@ def run_path(h, cfg):
         if fam == 'group':
             G = graphs.make(cfg['graph'])
             res = {}
+            t0 = cfg.get('tmin', 0)
             for name in cfg['members']:
-                st, v = h.call(run_model, an, EoN, name, G, tau, gamma, rho)
+                n_before = len(flow.starts)
+                st, v = h.call(run_model, an, EoN, name, G, tau, gamma, rho, t0)
                 if st == 'exc':
                     h.fail('model-runs:' + type(v).__name__, {'model': name, 'exception': repr(v)[:300]})
                     return None
                 res[name] = v
+                # the series are in the time elapsed since the start of the integration: comparable only if every model starts at tmin
+                bad = [x for x in flow.starts[n_before:] if x != t0]
+                if bad or len(flow.starts) == n_before:
+                    h.fail('integrator-starts-at-tmin', {'model': name, 'started_at': [repr(x) for x in flow.starts[n_before:]], 'tmin': t0})
+                    return None
+                h.require('integrator-starts-at-tmin', True)
             base = cfg['members'][0]
             ok = True
             for name in cfg['members'][1:]:
@@ -236,10 +250,11 @@ def replay_concrete(cfg, kind, values, decisions):
         G = graphs.make(cfg['graph'])
         rho = float(Fr(cfg['rho']))
         outs = {}
+        t0 = float(cfg.get('tmin', 0))
         for name in cfg['members']:
             f = getattr(EoN, name)
             try:
-                r = f(G, tau, gamma, rho=rho, tmin=0, tmax=4, tcount=9)
+                r = f(G, tau, gamma, rho=rho, tmin=t0, tmax=t0 + 4, tcount=9)
             except Exception as e:
                 return {'reproduced': kind.startswith('model-runs'), 'concrete_detail': {'model': name, 'exception': repr(e)[:200]}}
             outs[name] = [np.asarray(x, dtype=float) for x in r[1:4]]
